@@ -186,6 +186,22 @@ ADDED3 = {
  "C18": ENGINE_R7,
  "C20": " Round 7: whitespace beyond ASCII between tokens (VT, FF, NO-BREAK SPACE, NEL, LINE SEPARATOR, IDEOGRAPHIC SPACE, EM SPACE).",
 }
+ADDED4 = {
+ "C04": " Round 8: COUNT(DISTINCT) over more than 16 distinct values with recurrences (count-distinct-wide); generated statements on 40-64 lines over 40 values x 3 keys (gen-wide).",
+ "C05": " Round 8: a DEFAULT on the joined table's key column (every line of the joined file, also an empty one, is a row and joins); Session.tla: the joined table defined again between two joins of one process, joins ON different columns of one joined table.",
+ "C08": " Round 8: more than 16 / 32 distinct rows, each recurring later (distinct-wide, gen-wide).",
+ "C09": " Round 8: Cli.tla: statements cut off at the end of a text that ends in line breaks, definition files with a missing final semicolon or a second table whose pattern is no regular expression.",
+ "C11": " Round 8: a table for which an empty line is a row (DEFAULT) in batch and line-by-line mode; the Reader replay.",
+ "C12": " Round 8: a byte order mark at the start of a later file; Cli.tla texts ending in line breaks.",
+ "C13": " Round 8: every element of an IN list, a call and a CASE is an expression (compound elements in every position).",
+ "C14": " Round 8: Cli.tla: a statement cut off at the end of a command text that ends in one / two line breaks (the located message must still be printed), a `;` inside a comment, definition files with a missing final `;` / several definitions of which one has an invalid pattern (also in ParseTotal's malformed statements).",
+ "C15": " Round 8: a byte order mark at the start of a later file (bom-files); follow mode over every order of the lines with lines that yield no row (the shown table never depends on which line comes last).",
+ "C18": " Round 8: Session.tla: `redefj` / `join2` -- nothing loaded for an earlier statement of the process (a joined table, its index) is used again by a later one.",
+ "C19": " Round 8: Trace_Sigint JoinLoadStopped: a real SIGINT while a joined file of 2.5 million lines is loading -- the read offset of the joined file stops within a few read-ahead buffers, no input line is processed, nothing is printed, status 0.",
+ "C20": " Round 8: a minus sign in front of literals followed by casts / in comparisons / after another minus under every separator (base statement 15); Cli.tla: the text of -c / --command-file reaches the parser as given (a `;` inside a comment, a final `;` and line break).",
+}
+for _pid, _t in ADDED4.items():
+    ADDED2[_pid] = ADDED2.get(_pid, "") + _t
 for _pid, _t in ADDED3.items():
     ADDED2[_pid] = ADDED2.get(_pid, "") + _t
 for _pid, _t in ADDED.items():
